@@ -43,7 +43,10 @@ def forms2(a, b):
     fs = [("infix", "%s g %s" % (A, B)), ("call", "g(%s, %s)" % (A, B)), ("bang", "g ! %s, %s" % (A, B)), ("backtick", "%s `g` %s" % (A, B)),
           ("sect_call_1", "g(_, %s)(%s)" % (B, A)), ("sect_call_2", "g(%s, _)(%s)" % (A, B)), ("sect_chain_1", "(_ g %s)(%s)" % (B, A)),
           ("sect_chain_2", "(%s g _)(%s)" % (A, B)), ("apply", "[%s, %s] apply g" % (A, B)), ("of", "g of [%s, %s]" % (A, B)),
-          ("splat", "g(...[%s, %s])" % (A, B)), ("opassign", "(\\x__ -> (x__ g= %s; x__))(%s)" % (B, A))]
+          ("splat", "g(...[%s, %s])" % (A, B)), ("opassign", "(\\x__ -> (x__ g= %s; x__))(%s)" % (B, A)),
+          # sections whose remaining arguments are splats, before and after the placeholder, and a splatted placeholder
+          ("sect_then_splat", "g(_, ...[%s])(%s)" % (B, A)), ("splat_then_sect", "g(...[%s], _)(%s)" % (A, B)),
+          ("sect_splat_hole", "g(..._)([%s, %s])" % (A, B)), ("sect_arg_splat_hole", "g(%s, ..._)([%s])" % (A, B))]
     if BYNAME[a][1] not in ("func", "type"):
         fs.append(("left_section", "(%s g)(%s)" % (A, B)))
     if a == b:
@@ -64,7 +67,9 @@ def forms3(a, b, c):
     A, B, C = "p_" + a, "p_" + b, "p_" + c
     return [("call", "g(%s, %s, %s)" % (A, B, C)), ("bang", "g ! %s, %s, %s" % (A, B, C)), ("splat", "g(...[%s, %s, %s])" % (A, B, C)),
             ("sect_1", "g(_, %s, %s)(%s)" % (B, C, A)), ("sect_2", "g(%s, _, %s)(%s)" % (A, C, B)), ("apply", "[%s, %s, %s] apply g" % (A, B, C)),
-            ("of", "g of [%s, %s, %s]" % (A, B, C)), ("splat_mixed", "g(%s, ...[%s, %s])" % (A, B, C))]
+            ("of", "g of [%s, %s, %s]" % (A, B, C)), ("splat_mixed", "g(%s, ...[%s, %s])" % (A, B, C)),
+            ("sect_then_splat", "g(_, ...[%s, %s])(%s)" % (B, C, A)), ("sect_mid_then_splat", "g(%s, _, ...[%s])(%s)" % (A, C, B)),
+            ("splat_then_sect", "g(...[%s, %s], _)(%s)" % (A, B, C)), ("sect_arg_splat_hole", "g(%s, ..._)([%s, %s])" % (A, B, C))]
 
 
 def loose(c, unordered):
